@@ -366,7 +366,9 @@ int Request::redirect(Verb v, estring_view location, bool enable_proxy) {
 
 int Request::parse_request_line(Parser &p) {
     auto verb_str = p.extract_until_char(' ');
-    m_verb = string_to_verb(m_buf | verb_str);
+    // not `m_buf | verb_str`: that converts m_buf to a string_view by strlen(),
+    // scanning the receive buffer beyond the bytes received (and beyond its end)
+    m_verb = string_to_verb(std::string_view{m_buf, m_buf_size} | verb_str);
     if (verb() == Verb::UNKNOWN)
         LOG_ERROR_RETURN(0, -1, "invalid http method");
     auto target = p.extract_until_char(' ');
